@@ -4,6 +4,8 @@ use vstd::prelude::*;
 use vstd::arithmetic::power2::*;
 use std::rc::Rc;
 use std::borrow::Borrow;
+use std::collections::HashMap;
+use vstd::std_specs::hash::*;
 
 verus! {
 //@ include prelude/bigint.rs
@@ -16,6 +18,7 @@ verus! {
 //@ include units/inc/sexp_types.rs
 //@ include prelude/allocator_tree.rs
 //@ include prelude/sha.rs
+//@ include units/inc/bytes.rs
 broadcast use {num_bigint::of_int_bi, num_bigint::bi_of_int};
 
 //@ extract fn bi_zero from src/classic/clvm/__type_compatibility__.rs
@@ -158,5 +161,80 @@ pub open spec fn found_at(p: int, root: SExp, hash: Seq<u8>) -> bool {
         tree_of(m, *r) == Tree::Pair(Box::new(Tree::Atom(u8n(2))), Box::new(Tree::Pair(Box::new(inner), Box::new(Tree::Pair(Box::new(c), Box::new(tnil()))))))
     })
 //@ end
+
+// ---- add_defun: the symbol table records hash(code) -> name and hash(code)_arguments -> args for the code it stores
+//@ extract struct DefunCall from src/compiler/comptypes.rs
+//@ derives
+//@ end
+//@ extract struct PrimaryCodegen from src/compiler/comptypes.rs
+//@ fields defuns function_symbols
+//@ derives
+//@ end
+// hex / lossy-utf8 text of a byte string (hex::encode, String::from_utf8_lossy): abstract
+pub uninterp spec fn hex_text(b: Seq<u8>) -> Seq<char>;
+pub uninterp spec fn lossy_text(b: Seq<u8>) -> Seq<char>;
+pub uninterp spec fn sexp_text(s: SExp) -> Seq<char>;
+impl Bytes {
+//@ extract fn hex from src/classic/clvm/__type_compatibility__.rs in impl Bytes
+//@ stub
+//@ sig r
+    ensures r@ == hex_text(bv(*self))
+//@ end
+//@ extract fn decode from src/classic/clvm/__type_compatibility__.rs in impl Bytes
+//@ stub
+//@ sig r
+    ensures r@ == lossy_text(bv(*self))
+//@ end
+}
+#[verifier::external_body]
+pub fn verif_suffix(s: &String, suffix: &str) -> (r: String) ensures r@ == s@ + suffix@ { unimplemented!() }
+#[verifier::external_body]
+pub fn verif_sexp_to_string(s: &Rc<SExp>) -> (r: String) ensures r@ == sexp_text(**s) { unimplemented!() }
+#[verifier::external_body]
+pub fn verif_to_owned(s: &[u8]) -> (r: Vec<u8>) ensures r@ == s@ { unimplemented!() }
+
+impl PrimaryCodegen {
+//@ note add_defun: after registering a function, the symbol table maps the hex tree hash of the STORED code to the function's name and that key + "_arguments" to the printed argument list, and the defuns table holds exactly that code under the name
+//@ extract fn add_defun from src/compiler/comptypes.rs in impl PrimaryCodegen
+//@ canary keep_first_name @<codegen_copy.function_symbols.insert(verif_hk, name);>@ => @<if !codegen_copy.function_symbols.contains_key(&verif_hk) { codegen_copy.function_symbols.insert(verif_hk, name); }>@
+//@ replace R24 @<codegen_copy.defuns.insert(name.to_owned(), value.clone());>@ => @<let verif_dk = verif_to_owned(name); let ghost g_dk = verif_dk; let ghost name0 = name@; codegen_copy.defuns.insert(verif_dk, value.clone());>@
+//@ replace R30 @<BytesFromType::Raw(name.to_owned())>@ => @<BytesFromType::Raw(verif_to_owned(name))>@
+//@ replace R24 @<codegen_copy.function_symbols.insert(hash_str.clone(), name);>@ => @<let verif_hk = hash_str.clone(); let ghost g_hk = verif_hk; let ghost g_nm = name@; codegen_copy.function_symbols.insert(verif_hk, name);>@
+//@ replace-block R24
+            codegen_copy
+                .function_symbols
+                .insert(format!("{hash_str}_left_env"), "1".to_string());
+//@ with
+            let verif_lk = verif_suffix(&hash_str, "_left_env");
+            proof { reveal_strlit("_left_env"); assert(verif_lk@.len() == hash_str@.len() + 9); }
+            codegen_copy
+                .function_symbols
+                .insert(verif_lk, "1".to_string());
+//@ replace-block R24
+        codegen_copy
+            .function_symbols
+            .insert(format!("{hash_str}_arguments"), args.to_string());
+//@ with
+        let verif_ak = verif_suffix(&hash_str, "_arguments");
+        let ghost g_ak = verif_ak;
+        proof { reveal_strlit("_arguments"); assert(verif_ak@.len() == hash_str@.len() + 10); assert(g_hk@.len() == hash_str@.len()); }
+        codegen_copy
+            .function_symbols
+            .insert(verif_ak, verif_sexp_to_string(&args));
+        proof {
+            assert(codegen_copy.function_symbols@.contains_key(g_hk) && codegen_copy.function_symbols@[g_hk]@ == g_nm);
+            assert(codegen_copy.function_symbols@.contains_key(g_ak));
+            assert(codegen_copy.defuns@.contains_key(g_dk));
+        }
+//@ sig r
+    requires obeys_key_model::<Vec<u8>>(), obeys_key_model::<String>()
+    ensures ({
+        let key = hex_text(tree_hash(tree_of(int_mode(), *value.code)));
+        &&& exists|k: String| #![trigger r.function_symbols@.contains_key(k)] k@ == key && r.function_symbols@.contains_key(k) && r.function_symbols@[k]@ == lossy_text(name@)
+        &&& exists|k: String| #![trigger r.function_symbols@.contains_key(k)] k@ == key + "_arguments"@ && r.function_symbols@.contains_key(k) && r.function_symbols@[k]@ == sexp_text(*args)
+        &&& exists|n: Vec<u8>| #![trigger r.defuns@.contains_key(n)] n@ == name@ && r.defuns@.contains_key(n) && r.defuns@[n].code == value.code
+    })
+//@ end
+}
 }
 fn main() {}
